@@ -417,6 +417,58 @@ func mutate(r *hx.Rand, root *doc) *doc {
 	}
 	t := es[r.Intn(len(es))]
 	nss := []string{nsDAV, nsCal, nsCard, nsX, ""}
+	// half of the time aim at what the query grammar constrains: a typed attribute,
+	// an exclusive sibling, a limit
+	if r.Bool() {
+		var typed, excl, sel []*doc
+		for _, e := range es {
+			switch e.local {
+			case "time-range", "expand", "text-match", "filter":
+				typed = append(typed, e)
+			case "nresults":
+				typed = append(typed, e)
+			}
+			switch e.local {
+			case "comp-filter", "prop-filter", "param-filter":
+				excl = append(excl, e)
+			case "comp", "address-data":
+				sel = append(sel, e)
+			}
+			if e.local == "prop-filter" && e.ns == nsCard {
+				typed = append(typed, e)
+			}
+		}
+		switch k := r.Intn(3); {
+		case k == 0 && len(typed) > 0:
+			e := typed[r.Intn(len(typed))]
+			if e.local == "nresults" {
+				e.kids = []*doc{tx(r.Pick(badLimits))}
+				return root
+			}
+			var idx []int
+			for i, a := range e.attrs {
+				if a[1] != "name" && a[1] != "collation" {
+					idx = append(idx, i)
+				}
+			}
+			if len(idx) > 0 {
+				i := idx[r.Intn(len(idx))]
+				e.attrs[i][2] = badValueFor(r, e.attrs[i][1])
+			} else {
+				a := map[string]string{"time-range": "start", "expand": "end", "text-match": "negate-condition", "filter": "test", "prop-filter": "test"}[e.local]
+				e.at(a, badValueFor(r, a))
+			}
+			return root
+		case k == 1 && len(excl) > 0:
+			e := excl[r.Intn(len(excl))]
+			e.kids = append(e.kids, el(e.ns, "is-not-defined"))
+			return root
+		case k == 2 && len(sel) > 0:
+			e := sel[r.Intn(len(sel))]
+			e.kids = append(e.kids, el(e.ns, r.Pick([]string{"allprop", "allcomp", "prop", "comp"})))
+			return root
+		}
+	}
 	switch r.Intn(13) {
 	case 0: // delete an element
 		if t != root {
